@@ -290,6 +290,26 @@ def numeric(rng, tier):
                 a3 = pp.metric.rpe(stamps, ref, jit.clone(), est, etype=et, align=True); b3 = pp.metric.rpe(stamps, ref, jit.clone(), G @ est, etype=et, align=True); evals += 2
                 if abs(float(a3['RMSE']) - float(b3['RMSE'])) > 1e-6 * (1 + float(a3['RMSE'])):
                     fails.append(dict(clause='rpe_align_invariance', signature=f'rigid/{et}', a=float(a3['RMSE']), b=float(b3['RMSE'])))
+        # rpe with every pairing option (frame / distance association, all pairs or consecutive, pairs taken from the reference): the pairing
+        # depends on the SHAPE of the trajectory only, so rpe stays invariant under left multiplication - also for a trajectory that starts
+        # close to the origin (closer than delta) and is moved away from it
+        if n >= 6:
+            step = pp.se3(torch.tensor([0.35, 0.05, -0.02, 0.0, 0.02, 0.03], dtype=d)).Exp()
+            start = pp.SE3(torch.tensor([0.3, -0.2, 0.4, 0, 0, 0, 1], dtype=d))
+            walk = [start]
+            for _ in range(n - 1): walk.append(walk[-1] @ step @ pp.se3(0.02 * torch.randn(6, dtype=d)).Exp())
+            wref = pp.SE3(torch.stack([w.tensor() for w in walk])); west = wref @ pp.se3(0.01 * torch.randn(n, 6, dtype=d)).Exp()
+            Gfar = pp.SE3(torch.cat([torch.tensor([4.0, -3.0, 2.5], dtype=d), pp.randn_SO3(dtype=d).tensor()]))
+            for assoc, allp, rp in (('distance', False, False), ('distance', True, False), ('distance', False, True), ('frame', False, False), ('frame', True, False)):
+                try:
+                    kw = dict(associate=assoc, delta=1.0 if assoc == 'distance' else 2, all=allp, rpair=rp)
+                    a4 = pp.metric.rpe(stamps, wref, stamps, west, **kw); b4 = pp.metric.rpe(stamps, wref, stamps, Gfar @ west, **kw)
+                    c4 = pp.metric.rpe(stamps, Gfar @ wref, stamps, west, **kw); evals += 3
+                    for nm, o in (('estimate moved', b4), ('reference moved', c4)):
+                        if abs(float(a4['RMSE']) - float(o['RMSE'])) > 1e-8 * (1 + float(a4['RMSE'])) or abs(float(a4['Max']) - float(o['Max'])) > 1e-8 * (1 + float(a4['Max'])):
+                            fails.append(dict(clause='rpe_left_invariance', signature=f'{nm}/associate={assoc},all={allp},rpair={rp}', a=float(a4['RMSE']), b=float(o['RMSE'])))
+                except Exception as e:
+                    fails.append(dict(clause='rpe_raises', signature=f'associate={assoc},all={allp},rpair={rp}', error=f'{type(e).__name__}: {e}'[:160]))
         # bspline: constant twist reproduction and equivariance with rotations
         xi = pp.randn_se3(sigma=0.3, dtype=d); T0 = pp.randn_SE3(dtype=d); m = rng.randrange(4, 9)
         poses = pp.SE3(torch.stack([(T0 @ (pp.se3(i * xi.tensor())).Exp()).tensor() for i in range(m)]))
